@@ -272,5 +272,11 @@ func (c *conn) roundtrip(ctx context.Context, msg *kmip.RequestMessage) (*kmip.R
 	if err := c.send(ctx, msg); err != nil {
 		return nil, err
 	}
-	return c.recv(ctx)
+	resp, err := c.recv(ctx)
+	if err != nil {
+		// The request has been sent: the connection must not be reused, or the late response
+		// would be delivered to the next caller.
+		_ = c.terminate(io.ErrClosedPipe)
+	}
+	return resp, err
 }
